@@ -136,7 +136,7 @@ package storage
 
 // Invariant of stored melt quotes (established by RequestMeltQuote, the only
 // inserter; UpdateMeltQuote does not touch these fields).
-//@ macro meltinv(r) = (r.State == nut05.Unpaid || r.State == nut05.Pending || r.State == nut05.Paid) && (r.State != nut05.Paid ==> r.Preimage == "") && r.Amount <= 9223372036854775 && r.FeeReserve <= r.Amount && (r.IsMpp ==> r.FeeReserve == ln.fee(r.AmountMsat / 1000)) && (!r.IsMpp ==> r.Amount == decode.msat(r.InvoiceRequest) / 1000) && decode.hash(r.InvoiceRequest) == r.PaymentHash
+//@ macro meltinv(r) = (r.State == nut05.Unpaid || r.State == nut05.Pending || r.State == nut05.Paid) && (r.State != nut05.Paid ==> r.Preimage == "") && r.Amount <= 9223372036854775 && r.FeeReserve <= r.Amount && (r.IsMpp ==> r.FeeReserve == ln.fee(r.AmountMsat / 1000) && r.AmountMsat < 9223372036854775808) && (!r.IsMpp ==> r.Amount == decode.msat(r.InvoiceRequest) / 1000) && decode.hash(r.InvoiceRequest) == r.PaymentHash
 
 //@ func (MintDB).SaveMeltQuote(mq)
 //@   trusted
